@@ -3,11 +3,12 @@
      iter_status_*            the three-valued run [iter_status] vs [iter_derivatives]
      tinv, push_all_tinv      the loop invariant: dwf + honest cache + new nodes normal + every seen term
                               is owned and has potential <= the potential of the start term
-     iter_no_divergence       with fuel  term_bound + 1  the run has finished or a derivative has panicked
-     cached_deriv_total       no constructor call inside a derivative panics if phi e <= U32MAX
-     iter_terminates_small    hence the exploration returns, for such e
-     iter_overflow_witness    a manager built by the public constructors and a term on which the derivative
-                              panics (u32 overflow of a loop bound): the unconditional statement is false
+     iter_no_divergence       with fuel  term_bound + 1  the run is not out of fuel
+     iter_never_panics        no class derivative inside the exploration panics (D11 repaired)
+     iter_terminates          hence the exploration returns, for every term of an honest manager
+     D11_prefix_witness       the pre-repair ReManager::concat panicked (u32 overflow of merged loop
+                              bounds) on terms built by the public constructors; the repaired one returns
+     iter_overflow_witness_repaired   on the witness term the derivative and the exploration now return
      run_hon                  every manager reached by a construction program has an honest cache *)
 Require Import Base CharSet Partition PartitionSpec LoopRange Regex Inclusion Constructors Deriv Explore Denote Sem.
 Require Import Lang PartitionProofs LoopRangeProofs ManagerProofs ConstructorProofs RunProofs DerivProofs.
@@ -169,19 +170,18 @@ Proof.
 Qed.
 
 (* ------------------------------------------------------------------------------------------ *)
-(** * Potential <= U32MAX: no panic, the exploration returns *)
+(** * No panic (D11 repaired), hence the exploration returns -- for every term, no bound on its potential *)
 
-Lemma push_all_some c0 P r : P <= U32MAX -> forall cids m q s,
+Lemma push_all_some c0 P r : forall cids m q s,
   tinv c0 P m s -> owned m r -> phi r <= P -> (forall cid, In cid cids -> pvalid (rcls r) cid = true) ->
   exists res, push_all_derivs m r cids q s = Some res.
 Proof.
-  intros HP. induction cids as [|cid t IH]; intros m q s T Or Pr Hv; cbn [push_all_derivs].
+  induction cids as [|cid t IH]; intros m q s T Or Pr Hv; cbn [push_all_derivs].
   - eexists; reflexivity.
   - destruct T as [Dm Hm Nm Ho Hp].
-    destruct (cached_deriv_total r m cid Dm Hm Or (Hv cid (or_introl eq_refl))) as (m2 & d & E); [lia|].
+    destruct (cached_deriv_total_pot c0 r m cid Dm Hm Nm Or (Hv cid (or_introl eq_refl)))
+      as (m2 & d & E & (D2 & X2 & Od) & Pd & H2 & N2).
     rewrite E. cbn [bind].
-    destruct (cached_deriv_pot c0 r m cid m2 d Dm Hm Nm Or (Hv cid (or_introl eq_refl)) E)
-      as ((D2 & X2 & Od) & Pd & H2 & N2).
     assert (Hv' : forall c, In c t -> pvalid (rcls r) c = true) by (intros c Hc; apply Hv; right; exact Hc).
     assert (Ho2 : forall x, In x s -> owned m2 x) by (intros x Hx; eapply ext_owned; [exact X2 | apply Ho; exact Hx]).
     destruct (existsb (re_eqb d) s).
@@ -192,31 +192,40 @@ Proof.
       * intros x [<-|Hx]; [lia | auto].
 Qed.
 
-Lemma iter_go_st_no_panic c0 P f : P <= U32MAX -> forall m q s out,
+Lemma iter_go_st_no_panic c0 P f : forall m q s out,
   tinv c0 P m s -> ExploreProofs.bfs_inv q s out -> iter_go_st f m q s out <> Panicked.
 Proof.
-  intros HP. induction f as [|f IH]; intros m q s out T B; cbn [iter_go_st]; [discriminate|].
+  induction f as [|f IH]; intros m q s out T B; cbn [iter_go_st]; [discriminate|].
   destruct q as [|r q]; [discriminate|].
   assert (Hr : In r s) by (destruct B as [Es _]; rewrite Es, <- in_rev; apply in_or_app; right; left; reflexivity).
   assert (Hv : forall cid, In cid (pclass_ids (rcls r)) -> pvalid (rcls r) cid = true)
     by (intros cid Hc; apply pclass_ids_in; exact Hc).
-  destruct (push_all_some c0 P r HP _ m q s T (t_own _ _ _ _ T r Hr) (t_pot _ _ _ _ T r Hr) Hv) as [[[m1 q1] s1] E].
+  destruct (push_all_some c0 P r _ m q s T (t_own _ _ _ _ T r Hr) (t_pot _ _ _ _ T r Hr) Hv) as [[[m1 q1] s1] E].
   rewrite E. apply IH.
   - apply (push_all_tinv c0 P r _ m q s m1 q1 s1 E T (t_own _ _ _ _ T r Hr) (t_pot _ _ _ _ T r Hr) Hv).
   - eapply ExploreProofs.push_all_bfs_inv; eauto.
 Qed.
 
-(* Termination of the exploration for every term whose potential fits in a u32 *)
-Theorem iter_terminates_small m e : dwf m -> hon m -> owned m e -> phi e <= U32MAX ->
+(* no class derivative inside the exploration panics, whatever the fuel *)
+Theorem iter_never_panics fuel m e : dwf m -> hon m -> owned m e -> iter_status fuel m e <> Panicked.
+Proof.
+  intros Dm Hm Oe.
+  apply (iter_go_st_no_panic (counter m) (phi e) fuel m [e] [e] [] (tinv_init m e Dm Hm Oe) (ExploreProofs.bfs_inv_init e)).
+Qed.
+
+(* Termination of the exploration for every owned term of a manager with an honest cache *)
+Theorem iter_terminates m e : dwf m -> hon m -> owned m e ->
   exists m' l, iter_derivatives (S (term_bound (counter m) (phi e))) m e = Some (m', l).
 Proof.
-  intros Dm Hm Oe HP. pose proof (iter_no_divergence m e Dm Hm Oe) as H1.
-  pose proof (iter_go_st_no_panic (counter m) (phi e) (S (term_bound (counter m) (phi e))) HP m [e] [e] []
-                (tinv_init m e Dm Hm Oe) (ExploreProofs.bfs_inv_init e)) as H2.
-  fold (iter_status (S (term_bound (counter m) (phi e))) m e) in H2.
+  intros Dm Hm Oe. pose proof (iter_no_divergence m e Dm Hm Oe) as H1.
+  pose proof (iter_never_panics (S (term_bound (counter m) (phi e))) m e Dm Hm Oe) as H2.
   destruct (iter_status (S (term_bound (counter m) (phi e))) m e) as [m' l| |] eqn:E; try contradiction.
   exists m', l. apply iter_status_finished. exact E.
 Qed.
+(* the former statement (potential <= U32MAX) is a special case *)
+Theorem iter_terminates_small m e : dwf m -> hon m -> owned m e -> phi e <= U32MAX ->
+  exists m' l, iter_derivatives (S (term_bound (counter m) (phi e))) m e = Some (m', l).
+Proof. intros Dm Hm Oe _. apply iter_terminates; assumption. Qed.
 
 (* the number of terms enumerated is at most term_bound *)
 Theorem iter_length_bound fuel m e m' l : dwf m -> hon m -> owned m e ->
@@ -268,72 +277,95 @@ Proof.
   apply (hon_ext m m' X (run_cache p m m' t R) Hm).
 Qed.
 
-(* every term built by a construction program from the initial manager: the exploration cannot diverge,
-   and it returns if the potential of the term is at most U32MAX *)
+(* every term built by a construction program from the initial manager: the exploration returns *)
 Theorem program_iter_no_divergence p m e : prog_ok p = true -> run p new_mgr = Some (m, e) ->
   iter_status (S (term_bound (counter m) (phi e))) m e <> OutOfFuel.
 Proof.
   intros Hok R. destruct (run_dwf p new_mgr m e new_mgr_dwf Hok R) as (Dm & _ & Oe).
   apply iter_no_divergence; auto. apply (run_hon p new_mgr m e new_mgr_dwf hon_new Hok R).
 Qed.
-Theorem program_iter_terminates p m e : prog_ok p = true -> run p new_mgr = Some (m, e) -> phi e <= U32MAX ->
+Theorem program_iter_terminates p m e : prog_ok p = true -> run p new_mgr = Some (m, e) ->
   exists m' l, iter_derivatives (S (term_bound (counter m) (phi e))) m e = Some (m', l).
 Proof.
-  intros Hok R HP. destruct (run_dwf p new_mgr m e new_mgr_dwf Hok R) as (Dm & _ & Oe).
-  apply iter_terminates_small; auto. apply (run_hon p new_mgr m e new_mgr_dwf hon_new Hok R).
+  intros Hok R. destruct (run_dwf p new_mgr m e new_mgr_dwf Hok R) as (Dm & _ & Oe).
+  apply iter_terminates; auto. apply (run_hon p new_mgr m e new_mgr_dwf hon_new Hok R).
 Qed.
 
-(* the same, with the bound computed from the program alone, from any honest manager *)
+(* the same from any honest manager; the program itself runs (run_total), so an accepted program
+   followed by the exploration of its result returns *)
+Theorem program_iter_terminates_any p m0 m e : dwf m0 -> hon m0 -> prog_ok p = true -> run p m0 = Some (m, e) ->
+  exists m' l, iter_derivatives (S (term_bound (counter m) (phi e))) m e = Some (m', l).
+Proof.
+  intros D0 H0 Hok R. destruct (run_dwf p m0 m e D0 Hok R) as (Dm & _ & Oe).
+  apply iter_terminates; auto. apply (run_hon p m0 m e D0 H0 Hok R).
+Qed.
+Theorem program_iter_total p m0 : dwf m0 -> hon m0 -> prog_ok p = true ->
+  exists m e m' l, run p m0 = Some (m, e) /\
+    iter_derivatives (S (term_bound (counter m) (phi e))) m e = Some (m', l).
+Proof.
+  intros D0 H0 Hok. destruct (run_total p m0 (proj1 D0) Hok) as (m & e & R).
+  destruct (program_iter_terminates_any p m0 m e D0 H0 Hok R) as (m' & l & E).
+  exists m, e, m', l. auto.
+Qed.
+(* the former statement with the bound computed from the program is a special case *)
 Theorem program_iter_terminates_pphi p m0 m e : dwf m0 -> hon m0 -> prog_ok p = true -> run p m0 = Some (m, e) ->
   pphi p <= U32MAX ->
   exists m' l, iter_derivatives (S (term_bound (counter m) (phi e))) m e = Some (m', l).
-Proof.
-  intros D0 H0 Hok R HP. destruct (run_dwf p m0 m e D0 Hok R) as (Dm & _ & Oe).
-  destruct (run_pot p m0 m e (proj1 D0) Hok R) as [Pe _].
-  apply iter_terminates_small; auto; [apply (run_hon p m0 m e D0 H0 Hok R) | lia].
-Qed.
+Proof. intros D0 H0 Hok R _. apply (program_iter_terminates_any p m0 m e D0 H0 Hok R). Qed.
 
 (* ------------------------------------------------------------------------------------------ *)
-(** * The unconditional statement is false: a derivative that panics *)
+(** * Defect D11: what the repair changed *)
 
-(* (b | c a^4294967295) a^5 : the derivative by c rebuilds a^4294967295 . a^5, whose upper loop bound
-   overflows u32 (LoopRange::add panics) *)
+(* (b | c a^4294967295) a^5 : the derivative by c rebuilds a^4294967295 . a^5.  The pre-repair
+   ReManager::concat merged the two loops with LoopRange::add, whose u32 addition of the upper
+   bounds panicked; the repaired concat applies the merging rule only when the sums fit in u32 and
+   otherwise builds the plain concatenation. *)
 Definition overflow_prog : prog :=
   PConcat (PUnion (PRange 98 98) (PConcat (PRange 99 99) (PLoop (PRange 97 97) 4294967295 (Some 4294967295))))
           (PLoop (PRange 97 97) 5 (Some 5)).
+Definition d11_left : prog := PLoop (PRange 97 97) 4294967295 (Some 4294967295).
+Definition d11_right : prog := PLoop (PRange 97 97) 5 (Some 5).
 
-Theorem iter_overflow_witness :
+(* the old behaviour, on terms built by the public constructors: the pre-repair rule panics, the
+   repaired concat returns the plain concatenation node *)
+Theorem D11_prefix_witness :
+  exists m1 x m2 y, run d11_left new_mgr = Some (m1, x) /\ run d11_right m1 = Some (m2, y) /\
+    (exists a, rnode x = NLoop a (LR 4294967295 (Some 4294967295)) /\ rnode y = NLoop a (LR 5 (Some 5))) /\
+    lr_add (LR 4294967295 (Some 4294967295)) (LR 5 (Some 5)) = None /\
+    concat_prefix x m2 y = None /\
+    exists m3 t, concat x m2 y = Some (m3, t) /\ rnode t = NConcat x y.
+Proof.
+  destruct (run d11_left new_mgr) as [[m1 x]|] eqn:R1; [|vm_compute in R1; discriminate].
+  destruct (run d11_right m1) as [[m2 y]|] eqn:R2; [|vm_compute in R1; inversion R1; subst; vm_compute in R2; discriminate].
+  exists m1, x, m2, y. split; [reflexivity|]. split; [exact R2|].
+  vm_compute in R1. inversion R1; subst m1 x. clear R1. vm_compute in R2. inversion R2; subst m2 y. clear R2.
+  split; [eexists; split; reflexivity|]. split; [vm_compute; reflexivity|]. split; [vm_compute; reflexivity|].
+  eexists; eexists. split; vm_compute; reflexivity.
+Qed.
+
+(* on the witness term the class derivative by c now returns, and so does the whole exploration (by
+   iter_terminates: it enumerates about 2^32 terms, so this last fact is not shown by computation) *)
+Theorem iter_overflow_witness_repaired :
   exists m e, prog_ok overflow_prog = true /\ run overflow_prog new_mgr = Some (m, e) /\
-    dwf m /\ hon m /\ owned m e /\
-    pvalid (rcls e) (CInt 1) = true /\ cached_deriv e m (CInt 1) = None /\
-    (forall fuel, iter_derivatives fuel m e = None) /\
-    phi e = U32MAX + 9.
+    dwf m /\ hon m /\ owned m e /\ phi e = U32MAX + 9 /\
+    pvalid (rcls e) (CInt 1) = true /\
+    (exists m' d, cached_deriv e m (CInt 1) = Some (m', d)) /\
+    (exists m' d, char_derivative m e 99 = Some (m', d)) /\
+    (exists fuel m' l, iter_derivatives fuel m e = Some (m', l)).
 Proof.
   destruct (run overflow_prog new_mgr) as [[m e]|] eqn:R; [|vm_compute in R; discriminate].
   exists m, e. assert (Hok : prog_ok overflow_prog = true) by (vm_compute; reflexivity).
   destruct (run_dwf overflow_prog new_mgr m e new_mgr_dwf Hok R) as (Dm & _ & Oe).
+  pose proof (run_hon overflow_prog new_mgr m e new_mgr_dwf hon_new Hok R) as Hm.
+  assert (Hit : exists fuel m' l, iter_derivatives fuel m e = Some (m', l))
+    by (destruct (iter_terminates m e Dm Hm Oe) as (m' & l & E); eauto).
   split; [exact Hok|]. split; [reflexivity|]. split; [exact Dm|].
-  split; [apply (run_hon overflow_prog new_mgr m e new_mgr_dwf hon_new Hok R)|]. split; [exact Oe|].
-  vm_compute in R. inversion R; subst m e. clear R.
+  split; [exact Hm|]. split; [exact Oe|].
+  revert Hit. vm_compute in R. inversion R; subst m e. clear R. intros Hit.
   split; [vm_compute; reflexivity|]. split; [vm_compute; reflexivity|].
-  split; [|vm_compute; reflexivity].
-  intros [|f]; [reflexivity|]. unfold iter_derivatives. cbn [iter_go].
-  match goal with |- bind ?x _ = None => assert (E : x = None) by (vm_compute; reflexivity); rewrite E end.
-  reflexivity.
-Qed.
-
-(* hence the statement "dwf m -> owned m e -> exists fuel m' l, iter_derivatives fuel m e = Some (m', l)" is false *)
-Theorem iter_terminates_unconditional_refuted :
-  ~ (forall m e, dwf m -> owned m e -> exists fuel m' l, iter_derivatives fuel m e = Some (m', l)).
-Proof.
-  intros H. destruct iter_overflow_witness as (m & e & _ & _ & Dm & _ & Oe & _ & _ & Hn & _).
-  destruct (H m e Dm Oe) as (fuel & m' & l & E). rewrite Hn in E. discriminate.
-Qed.
-Theorem cached_deriv_total_unconditional_refuted :
-  ~ (forall m e cid, dwf m -> owned m e -> pvalid (rcls e) cid = true -> exists m' d, cached_deriv e m cid = Some (m', d)).
-Proof.
-  intros H. destruct iter_overflow_witness as (m & e & _ & _ & Dm & _ & Oe & Hv & Hn & _).
-  destruct (H m e (CInt 1) Dm Oe Hv) as (m' & d & E). rewrite Hn in E. discriminate.
+  split; [eexists; eexists; vm_compute; reflexivity|].
+  split; [|exact Hit].
+  eexists; eexists; vm_compute; reflexivity.
 Qed.
 
 (* ------------------------------------------------------------------------------------------ *)
